@@ -318,6 +318,51 @@ Example C19_index_example :
 Proof. exact ConcatDataExP.ex_data_short. Qed.
 Print Assumptions C19_index_example.
 
+(* ------------------------------------------------------------------ parts of another size (finding C19-F5, OPEN) *)
+(* A concatenation whose parts have spectral windows with different numbers of channels / subarrays with different
+   numbers of products.  select(spw=w, subarray=s) deselects every dump of the parts of the other windows / subarrays
+   and ConcatenatedDataSet._set_keep hands EVERY part the channel / product masks of the selected ones.
+   [ds_getitem_sized strict] = vis / flags / weights of such a data set; [spec_ds_sized] = the property: the index applied
+   to the glued stored arrays of the parts of the selected window / subarray under the selection of the whole.
+   h5 parts ([strict] = false, LazyIndexer): FULL strength.  v4 parts ([strict] = true, DaskLazyIndexer.shape applies the
+   masks at once): every access raises IndexError although the spec answers - _refuted (vm_compute witness); _partial
+   with the guard "every part has the size of the selected window / subarray". *)
+Theorem C19_index_other_sizes_h5 : forall tail tailkeep dt parts ix out,
+  Forall (fun p => KV.Proofs.ConcatDataP.dpart_ok (KV.Model.ConcatData.sp_part p)) parts ->
+  KV.Proofs.ConcatDataP.tail_ok tail tailkeep ->
+  KV.Model.ConcatData.ds_getitem_sized false tail tailkeep dt parts ix = KV.Base.AxisIndex.Ok out ->
+  KV.Model.ConcatData.spec_ds_sized tail tailkeep dt parts ix = KV.Base.AxisIndex.Ok out /\
+  (forall p, In p parts -> KV.Model.ConcatData.fits tail p = false -> KV.Model.ConcatData.has_dump p = false).
+Proof. exact KV.Proofs.ConcatDataP.index_sized_lenient. Qed.
+Print Assumptions C19_index_other_sizes_h5.
+
+Theorem C19_index_other_sizes_v4_refuted :
+  exists tail tailkeep dt parts ix out,
+    Forall (fun p => KV.Proofs.ConcatDataP.dpart_ok (KV.Model.ConcatData.sp_part p)) parts /\
+    KV.Proofs.ConcatDataP.tail_ok tail tailkeep /\
+    (forall p, In p parts -> KV.Model.ConcatData.fits tail p = false -> KV.Model.ConcatData.has_dump p = false) /\
+    KV.Model.ConcatData.spec_ds_sized tail tailkeep dt parts ix = KV.Base.AxisIndex.Ok out /\
+    KV.Model.ConcatData.ds_getitem_sized true tail tailkeep dt parts ix = KV.Base.AxisIndex.Err.
+Proof. exact ConcatDataExP.ex_sized_refuted. Qed.
+Print Assumptions C19_index_other_sizes_v4_refuted.
+
+Theorem C19_index_other_sizes_v4_partial : forall strict tail tailkeep dt parts ix out,
+  Forall (fun p => KV.Proofs.ConcatDataP.dpart_ok (KV.Model.ConcatData.sp_part p)) parts ->
+  KV.Proofs.ConcatDataP.tail_ok tail tailkeep ->
+  forallb (KV.Model.ConcatData.fits tail) parts = true ->
+  KV.Model.ConcatData.ds_getitem_sized strict tail tailkeep dt parts ix = KV.Base.AxisIndex.Ok out ->
+  KV.Model.ConcatData.spec_ds_sized tail tailkeep dt parts ix = KV.Base.AxisIndex.Ok out.
+Proof. exact KV.Proofs.ConcatDataP.index_sized_partial. Qed.
+Print Assumptions C19_index_other_sizes_v4_partial.
+
+(* with parts of one size it is the model of C19_index, strict or not *)
+Theorem C19_index_same_size : forall strict tail tailkeep dt parts ix,
+  forallb (KV.Model.ConcatData.fits tail) parts = true ->
+  KV.Model.ConcatData.ds_getitem_sized strict tail tailkeep dt parts ix
+  = KV.Model.ConcatData.ds_getitem tail tailkeep dt (map KV.Model.ConcatData.sp_part parts) ix.
+Proof. exact KV.Proofs.ConcatDataP.sized_same_size. Qed.
+Print Assumptions C19_index_same_size.
+
 (* ------------------------------------------------------------------ identical subarrays / spectral windows *)
 (* Model/ConcatIdent.v: what Subarray.__eq__ / SpectralWindow.__eq__ compare, component by component as the translator
    re-reads it from _description (fail-closed), and the if-chain of dummy_sensor_getter.  Model/ConcatMulti.v:
